@@ -89,6 +89,8 @@ pub enum Ev {
   Abort { msg: String },
   BuCreate,
   BuSchedule { res: u32 },
+  /// A bottom-up build that was told about resources and then dropped without `update_affected_tasks`.
+  BuAbandon,
   BuUpdateCall,
   BuUpdateRet,
   DepErrors { errs: Vec<String> },
